@@ -536,11 +536,16 @@ func (x *sess) exec(op string) string {
 	if len(f) < 2 {
 		return "bad-op"
 	}
+	if ans, ok := x.execChain(f); ok {
+		return ans
+	}
 	switch f[0] {
 	case "w":
 		return x.execW(f[1:])
 	case "r":
 		return x.execR(f[1:])
+	case "x":
+		return x.execX(f[1:])
 	}
 
 	return "bad-op"
@@ -1031,6 +1036,11 @@ func main() {
 	for i := 0; i < n; i++ {
 		rng, sub := r.Rng.Fork()
 		genCase(r, rng, sub)
+	}
+	// the exported validators, CheckBounds, Subset, the sort helpers, TimeToUint64, AbortIf / Do called directly
+	for i := 0; i < 1500*r.Scale; i++ {
+		rng, sub := r.Rng.Fork()
+		genXCase(r, rng, sub)
 	}
 	r.Finish()
 }
